@@ -99,7 +99,7 @@ func init() {
 		},
 		Threshold: func(m *core.Merged) []string {
 			var r []string
-			for _, k := range []string{"isolated", "repeated", "interleaved", "concurrent-eval", "concurrent-compile", "concurrent-patch", "table-digest", "clock-override", "clock-bracket", "tz-programs", "overlap-observed"} {
+			for _, k := range []string{"isolated", "repeated", "interleaved", "concurrent-eval", "concurrent-compile", "concurrent-patch", "table-digest", "evaluate-history", "clock-override", "clock-bracket", "tz-programs", "overlap-observed"} {
 				if m.Cover[k] == 0 {
 					r = append(r, "never observed: "+k)
 				}
@@ -314,6 +314,7 @@ func runC04(env *core.Env) {
 		}
 		env.Cover("table-digest")
 	}
+	c04EvalHistory(env)
 	c04Clock(env)
 	c04TZ(env, resources)
 	if len(srcs) > 3 {
@@ -470,6 +471,65 @@ func c04Compile(env *core.Env, rng *core.Rng, digest0 string) {
 	}
 	if _, err := fhirpath.Compile("Patient.name.given.join(',')", compopts.WithExperimentalFuncs()); err != nil {
 		env.Violatef("C04/compile-isolation/experimental-missing", "`join` does not resolve with WithExperimentalFuncs: %v", err)
+	}
+}
+
+// c04EvalHistory: what an Evaluate call was given does not survive it. Concurrently, goroutines alternate
+// evaluations whose options fail after a variable was accepted with evaluations that do not supply that
+// variable; the variable must be unknown there, and the same name may be supplied again.
+func c04EvalHistory(env *core.Env) {
+	exLeak, err1 := fhirpath.Compile("%leak")
+	exID, err2 := fhirpath.Compile("Patient.id")
+	if err1 != nil || err2 != nil {
+		return
+	}
+	in := []fhir.Resource{gen.StdPatient()}
+	var mu sync.Mutex
+	var problems []string
+	var wg sync.WaitGroup
+	for g := 0; g < 8; g++ {
+		wg.Add(1)
+		go func(g int) {
+			defer wg.Done()
+			defer func() {
+				if r := recover(); r != nil {
+					mu.Lock()
+					problems = append(problems, fmt.Sprintf("panic %v", r))
+					mu.Unlock()
+				}
+			}()
+			for k := 0; k < 60; k++ {
+				_, e0 := exID.Evaluate(in, evalopts.EnvVariable("leak", system.Integer(int32(g*100+k))), evalopts.EnvVariable("bad", 42))
+				if e0 == nil {
+					mu.Lock()
+					problems = append(problems, "failing-option-ignored an unsupported variable value was accepted")
+					mu.Unlock()
+				}
+				c, e1 := exLeak.Evaluate(in)
+				if e1 == nil {
+					mu.Lock()
+					problems = append(problems, fmt.Sprintf("variable-of-a-failed-evaluation-visible `%%leak` without options evaluated to %v after another evaluation accepted `leak` and failed", fx.RenderAll(c)))
+					mu.Unlock()
+				}
+				c, e2 := exLeak.Evaluate(in, evalopts.EnvVariable("leak", system.Integer(7)))
+				if e2 != nil || len(c) != 1 || fx.Render(c[0]).T != "7" {
+					mu.Lock()
+					problems = append(problems, fmt.Sprintf("variable-not-the-supplied-value `%%leak` with leak = 7 gave %v, %v", fx.RenderAll(c), e2))
+					mu.Unlock()
+				}
+			}
+		}(g)
+	}
+	wg.Wait()
+	env.Eval(8 * 60 * 3)
+	env.Cover("evaluate-history")
+	seen := map[string]bool{}
+	for _, p := range problems {
+		k := strings.SplitN(p, " ", 2)[0]
+		if !seen[k] {
+			seen[k] = true
+			env.Violatef("C04/evaluate-history/"+k, "concurrent Evaluate history: %s", p)
+		}
 	}
 }
 
